@@ -395,4 +395,58 @@ theorem frag_OnClauseSpec {j : JVal} (h : accepts OnClauseSpec j = true) : OnCla
   · exact .inr (.inr (.inl (frag_LIST_OF_TASKS ha)))
   · exact .inr (.inr (.inr (frag_ADVANCED_PUBLISHING_DICT ha)))
 
+/-! ## helpers of the per-class theorems -/
+
+/-- a declared property that is present has the shape its fragment guarantees. -/
+theorem prop_shape {S : Schema} {kvs : List (Key × JVal)} {k : String} {frag : Schema} {P : JVal → Prop}
+    (h : accepts S (.obj kvs) = true) (hp : (k, frag) ∈ S.props)
+    (hf : ∀ j, accepts frag j = true → P j) {v : JVal} (hl : lookup k kvs = some v) : P v :=
+  hf v (accepts_prop h hp hl)
+
+/-- the `anyOf` of TaskSpec._schema: not both `action` and `workflow`. -/
+def actionXorWorkflow : Kw :=
+  .anyOf [(.mk [.not (.mk [.type [.object], .required ["action", "workflow"]])]),
+          (.mk [.oneOf [(.mk [.type [.object], .required ["action"]]), (.mk [.type [.object], .required ["workflow"]])]])]
+
+theorem required_clean {ks : List String} {kvs : List (Key × JVal)} (h : ∀ k ∈ ks, hasKey k kvs = true) :
+    (validateKw (.required ks) (.obj kvs)).clean = true := by
+  have : ks.filter (fun k => !hasKey k kvs) = [] := by
+    rw [List.filter_eq_nil_iff]
+    intro k hk
+    simp [h k hk]
+  simp [validateKw, this, Out.clean]
+
+theorem not_both {kvs : List (Key × JVal)} (h : (validateKw actionXorWorkflow (.obj kvs)).clean = true) :
+    ¬ (hasKey "action" kvs = true ∧ hasKey "workflow" kvs = true) := by
+  rintro ⟨ha, hw⟩
+  simp only [actionXorWorkflow, validateKw] at h
+  obtain ⟨s, hs, hacc⟩ := anyOf_some h
+  simp only [List.mem_cons, List.mem_nil_iff, or_false] at hs
+  rcases hs with rfl | rfl
+  · rw [accepts_mk] at hacc
+    simp only [List.all_cons, List.all_nil, Bool.and_true] at hacc
+    have hn := not_sub hacc
+    have hb : accepts (.mk [.type [.object], .required ["action", "workflow"]]) (.obj kvs) = true := by
+      rw [accepts_mk]
+      simp only [List.all_cons, List.all_nil, Bool.and_true, Bool.and_eq_true]
+      refine ⟨by simp [validateKw, isType], required_clean ?_⟩
+      intro k hk
+      simp only [List.mem_cons, List.mem_nil_iff, or_false] at hk
+      rcases hk with rfl | rfl <;> assumption
+    rw [hb] at hn
+    cases hn
+  · rw [accepts_mk] at hacc
+    simp only [List.all_cons, List.all_nil, Bool.and_true, validateKw] at hacc
+    have h1 : accepts (.mk [.type [.object], .required ["action"]]) (.obj kvs) = true := by
+      rw [accepts_mk]
+      simp only [List.all_cons, List.all_nil, Bool.and_true, Bool.and_eq_true]
+      exact ⟨by simp [validateKw, isType], required_clean (by simpa using ha)⟩
+    have h2 : accepts (.mk [.type [.object], .required ["workflow"]]) (.obj kvs) = true := by
+      rw [accepts_mk]
+      simp only [List.all_cons, List.all_nil, Bool.and_true, Bool.and_eq_true]
+      exact ⟨by simp [validateKw, isType], required_clean (by simpa using hw)⟩
+    have := oneOf_two (pre := []) (mid := []) (post := []) hacc rfl h1
+    rw [h2] at this
+    cases this
+
 end Mistral.Schema
